@@ -5,7 +5,7 @@ package socks
 // Shape B, two harnesses over a stub net.Conn that records every Write and serves a scripted reply:
 //   VerifC54_request: destination (IPv4 / IPv6 / name of length 1, 3, 255, 256 with symbolic bytes) and port (decimal
 //     string of 1..5 symbolic digits), with and without username/password authentication, through the public
-//     DialWithConn; a reference RFC 1928 server-side decoder in the harness parses the recorded CONNECT request and must
+//     DialWithConn (the symbolic name bytes range over every byte value except ':', '[', ']'); a reference RFC 1928 server-side decoder in the harness parses the recorded CONNECT request and must
 //     obtain exactly the requested destination. The server's replies are concrete successes here.
 //   VerifC54_reply: fixed destination; the server's replies are symbolic byte strings (method selection, optional
 //     username/password status, CONNECT reply with every address type), truncated at every length and delivered whole
@@ -160,8 +160,13 @@ func VerifC54_request() {
 			bs[i] = 'n'
 		}
 		for _, i := range []int{0, n / 2, n - 1} {
+			// ANY byte value a host may hold in "host:port" form: everything but ':', '[' and ']' (net.SplitHostPort
+			// refuses those outside a bracketed literal). Such a host is never an IP literal: without ':' it is not
+			// IPv6 (a zone '%' needs an IPv6 literal in front of it), and it is not IPv4 because it is shorter than
+			// "d.d.d.d" (n = 1, 3) or contains the letter 'n' (n >= 254). So it is a name and must be sent verbatim:
+			// dots, digits, '%', '-', '_', blanks, NUL and bytes >= 0x80 included.
 			c := vfU8("name")
-			vfAssume(vfAnd(c >= 'g', c <= 'z')) // letters that are not hex digits: never an IP literal
+			vfAssume(vfAnd(vfAnd(c != ':', c != '['), c != ']'))
 			bs[i] = c
 		}
 		host = string(bs)
